@@ -786,11 +786,22 @@ func (s *rstate) eval(e gen.Expr) (interface{}, error) {
 			}
 			return x[int(f)], nil
 		case map[string]interface{}:
-			ks, ok := k.(string)
-			if !ok {
-				oor("hash key of type %T", k)
+			switch kk := k.(type) {
+			case string:
+				return x[kk], nil // a missing attribute is null
+			case float64:
+				// the keys of a hash are strings; a number or a boolean finds the entry under its string form
+				if !isInt(kk) || math.Abs(kk) >= 1e6 {
+					oor("hash subscript %v", kk)
+				}
+				return x[FmtNum(kk)], nil
+			case bool:
+				if kk {
+					return x["1"], nil
+				}
+				return x[""], nil
 			}
-			return x[ks], nil // a missing attribute is null
+			oor("hash key of type %T", k)
 		case nil:
 			return nil, nil
 		}
